@@ -73,13 +73,13 @@ def calc_fn(name):
     return PyFn(lambda ip_, *a, **k: ip_.uf(name, *[ip_.to_U(x) for x in a], *[ip_.to_U(k[q]) for q in sorted(k)]), name)
 
 
-def dist_fn(name):
+def dist_fn(name, event_shape=(), batch_shape=()):
     """an arbitrary distribution family: log_prob(x) is a deterministic function of the parameters and x"""
     def make(ip_, *a, **k):
         params = [ip_.to_U(x) for x in a] + [ip_.to_U(k[q]) for q in sorted(k)]
         return PyObj(f"tfp:{name}", log_prob=PyFn(lambda ip2, x: ip2.uf(f"logp_{name}", *params, ip2.to_U(x)), "log_prob"), params=params, family=name,
                      sample=PyFn(lambda ip2, shape, seed=None: ip2.uf(f"draw_{name}", *params, ip2.to_U(shape), ip2.to_U(seed)), "sample"),
-                     event_shape=(), batch_shape=())
+                     event_shape=event_shape, batch_shape=batch_shape)
     return PyFn(make, name)
 
 
